@@ -56,6 +56,7 @@ let print_tok b (t : tok) =
   | TErrAny -> Buffer.add_char b 'E'
   | TRange (lo, hi) -> Buffer.add_string b ("r~" ^ string_of_z lo ^ "~" ^ string_of_z hi)
   | TFRange (lo, hi) -> Buffer.add_string b ("f~" ^ string_of_z lo ^ "~" ^ string_of_z hi)
+  | TNoPanic -> Buffer.add_string b "!P"
 
 let print_toks b ts =
   List.iteri (fun i t -> if i > 0 then Buffer.add_char b ' '; print_tok b t) ts
